@@ -1,13 +1,19 @@
 (* C18 - bad input produces a diagnosed failure, not an internal error.  Statements only.
    Proved for all inputs: the parser answers every text with entries or with its own two exception types and the
    accepted entries are sane (C09's theorems, restated); the compatibility check applied to two entries for one
-   path never fails.  PARTIAL: the executable model HAS internal-error results (its exn type keeps
-   XInternal to mirror the code); that none of them is reachable from the CLI is decided by running
+   path never fails; and no reading operation of the loader - construction, chain loading, lookups, single-path and
+   directory verification with any failure handler, in any order on one loader object - ends with an internal error
+   other than the ValueError / UnicodeError of a path with NUL or a lone surrogate (findings D23, D13) or of Manifest
+   bytes that are not UTF-8 (outside the quantifier), for every tree, fault placement and Manifest text.
+   PARTIAL: the executable model HAS internal-error results (its exn type keeps XInternal to mirror the code); for
+   the writing side (update, save) the known reachable ones are findings D8, D11, D12, D21, D25; that no other is
+   reachable from the CLI is decided by running
    gemato.cli.main in-process over the C01/C03/C09 generators and comparing the outcome class with the model's;
    the known reachable ones (findings D8, D12, D13, D21) are listed in known_findings.json. *)
 From Coq Require Import List NArith ZArith Bool.
 From Gemato Require Import Py.PyStr Py.PyPath Py.PyTime Gen.Tables Model.Entry Model.Text Model.Hash Model.FS Model.Verify.
-From Gemato Require Import Proofs.Reject Proofs.NoInternal.
+From Gemato Require Import Model.OpenPGP Model.Loader.
+From Gemato Require Import Proofs.Reject Proofs.NoInternal Proofs.ReadSafe.
 Import ListNotations.
 Open Scope N_scope.
 
@@ -24,6 +30,25 @@ Theorem C18_compatibility_total : forall e1 e2, parsed_shape e1 -> parsed_shape 
   exists ok diff, verify_entry_compatibility e1 e2 = Ok (ok, diff).
 Proof. exact compat_total. Qed.
 Print Assumptions C18_compatibility_total.
+
+(* benign e: e is not an internal error, except the two classes provoked by NUL / lone surrogates in a path or non-UTF-8 bytes.
+   sane_faults w: open() answers ENXIO / EOPNOTSUPP only for sockets (never as an injected fault on another object).
+   The hash library, the decompressor and the OpenPGP environment are arbitrary but do not raise internal errors. *)
+Theorem C18_reading_never_internal :
+  forall (L : Hash.hashlib) decompress pgp_verify,
+    (forall s, safe (Hash.hl_hexdigest L s)) -> (forall f d, safe (decompress f d)) -> (forall t, safe (pgp_verify t)) ->
+  forall w, sane_faults w ->
+  forall top opts allow_create allow_xdev ops e,
+    (l <- new_loader L decompress pgp_verify w top opts allow_create allow_xdev ;; run_rops L decompress pgp_verify w l ops) = Err e ->
+    forall k, e = XInternal k -> k = IValue \/ k = IUnicode.
+Proof. intros L dc pg H1 H2 H3 w Hw top opts ac ax ops e H. exact (loader_reading_safe L dc pg H1 H2 H3 w Hw top opts ac ax ops e H). Qed.
+Print Assumptions C18_reading_never_internal.
+
+Theorem C18_single_file_check_never_internal :
+  forall (L : Hash.hashlib), (forall s, safe (Hash.hl_hexdigest L s)) ->
+  forall w path e dev lm, sane_faults w -> (forall d, e <> Some (ETs d)) -> safe (Verify.verify_path L w path e dev lm).
+Proof. exact verify_path_safe. Qed.
+Print Assumptions C18_single_file_check_never_internal.
 
 (* non-vacuity: two IGNORE entries of one path (the D4 input) meet the premises *)
 Example C18_duplicate_ignore : verify_entry_compatibility (EIgn [102;111;111]) (EIgn [102;111;111]) = Ok (true, []).
